@@ -98,6 +98,8 @@ def gen_plan(rng, tier, idx, opts):
                 plan["ops"].append({"op": "switch_bad", "v": rng.choice(["int1", "int0", "none", "np_true", "str"])})
             else:
                 plan["ops"].append({"op": "switch", "v": rng.random() < 0.6})
+        elif kind in ("su", "sumimo") and rng.random() < 0.25:
+            plan["ops"].append({"op": "set_antennas", "Nr": rng.randint(1, 3), "Nt": rng.randint(1, 3)})   # re-dimension between transmissions
         elif kind in ("su", "sumimo", "mu", "mumimo"):
             if rng.random() < 0.25:
                 plan["ops"].append({"op": "pathloss", "seed": None})
@@ -260,6 +262,15 @@ def execute(plan):
                     ch.switched_direction = bool(op["v"])
                     switched = bool(op["v"])
                     log.add("switch", switched)
+                    continue
+                if o == "set_antennas":
+                    if kind not in ("su", "sumimo"):
+                        continue
+                    ch.set_num_antennas(op["Nr"], op["Nt"])
+                    Nr, Nt = op["Nr"], op["Nt"]
+                    mimo = True
+                    log.add("set_antennas", Nr, Nt)
+                    bump(res["probes"], "antennas_changed_between_transmissions")
                     continue
                 if o == "switch_bad":
                     bad = {"int1": 1, "int0": 0, "none": None, "np_true": np.True_, "str": "yes"}[op["v"]]
